@@ -102,18 +102,18 @@ pub struct Expect { pub owner: int, pub evt: int, pub fd: RawFd, pub register: b
 // a worker: its thread id and the identities of the rings in its slice (what handle_event passes to the backend)
 pub struct VringEpollHandler { pub thread: Ghost<int>, pub vrings: Ghost<Seq<int>>, pub exp: Ghost<Expect> }
 impl VringEpollHandler {
-    // assumed: VringEpollHandler::new stores its arguments (event_loop.rs; its dispatch is a Kani obligation: c11_c17_handle_event_dispatch)
+    // proved-by: verus unit exitev (VringEpollHandler::new keeps backend, ring slice and thread id unchanged: [C17:worker-stores-arguments]); its dispatch is a Kani obligation: c11_c17_handle_event_dispatch
     #[verifier::external_body]
     pub fn new(backend: BackendStub, vrings: Vec<VringStub>, thread_id: usize) -> (r: core::result::Result<VringEpollHandler, IoError>)
         ensures r is Ok ==> r->Ok_0.thread@ == thread_id && r->Ok_0.vrings@ == ids(vrings@)
     { unimplemented!() }
     // argument contracts: a call on any other worker, with any other id / descriptor / direction does not verify
-    // argument-contract stub: REQUIRES pins worker, event id, descriptor and direction (effect on the epoll set: kani c11_*)
+    // argument-contract stub: REQUIRES pins worker, event id, descriptor and direction (effect on the epoll set: proved-by: verus unit exitev register_event = one epoll_ctl(Add, fd, ev, id); kani c11_*)
     #[verifier::external_body]
     pub fn register_event(&self, fd: RawFd, ev: EventSet, data: u64) -> (r: core::result::Result<(), IoError>)
         requires self.thread@ == self.exp@.owner, data == self.exp@.evt, fd == self.exp@.fd, self.exp@.register
     { unimplemented!() }
-    // argument-contract stub (as register_event)
+    // argument-contract stub (as register_event; proved-by: verus unit exitev unregister_event = one epoll_ctl(Delete, fd, ev, id))
     #[verifier::external_body]
     pub fn unregister_event(&self, fd: RawFd, ev: EventSet, data: u64) -> (r: core::result::Result<(), IoError>)
         requires self.thread@ == self.exp@.owner, data == self.exp@.evt, fd == self.exp@.fd, !self.exp@.register
